@@ -15,7 +15,7 @@ pub fn def() -> PropDef {
     PropDef {
         info: PropInfo {
             id: "C07",
-            rule: "call-graph programs: 1-6 functions laid out in a generated order after main (forward and backward displacements, optional padding up to 33k instructions between them); every function folds (its r10 - caller's r10) and the incoming r1-r4 into the accumulator r0, loads distinctive values into r6-r9, spills r10, writes stack slots at generated offsets of its own frame, optionally calls a helper with a small id (so that pc+1+id is a later executed instruction), optionally calls another function (any function, itself included) while a counter argument is non-zero (nesting depth 0-10), and after the return folds r6-r9, r1-r4, its reloaded stack slots and (r10 - spilled r10). Configurations: no calculator, or a stack-usage calculator driven by a generated table entry-pc -> u16 from {0,8,16,24,56,64,256,504,512,65535,random} with a distinctive default for non-entry pcs. Oracle: the reference model's C07 semantics vs the interpreter (value, or Err for depth > 8 / stack accesses outside the 512 bytes) and vs the x86-64 JIT whenever the model returns a value. Non-trivial = at least one executed local call whose callee writes the stack or r6-r9 (always true when a call executes); distinct by hash.",
+            rule: "call-graph programs: 1-6 functions laid out in a generated order after main (forward, backward and zero displacements (`callx +0`, whose callee is the code following the call), optional padding up to 33k instructions between them); every function folds (its r10 - caller's r10) and the incoming r1-r4 into the accumulator r0, loads distinctive values into r6-r9, spills r10, writes stack slots at generated offsets of its own frame, optionally calls a helper with a small id (so that pc+1+id is a later executed instruction), optionally calls another function (any function, itself included) while a counter argument is non-zero (nesting depth 0-10), and after the return folds r6-r9, r1-r4, its reloaded stack slots and (r10 - spilled r10). Configurations: no calculator, or a stack-usage calculator driven by a generated table entry-pc -> u16 from {0,8,16,24,56,64,256,504,512,65535,random} with a distinctive default for non-entry pcs. Oracle: the reference model's C07 semantics vs the interpreter (value, or Err for depth > 8 / stack accesses outside the 512 bytes) and vs the x86-64 JIT whenever the model returns a value. Non-trivial = at least one executed local call whose callee writes the stack or r6-r9 (always true when a call executes); distinct by hash.",
             assumptions: &["the JIT has no run-time error channel: the 'yields an error' clauses are checked on the interpreter only (DESIGN 6.6)", "stack addresses within 1 MiB of the eBPF stack belong to no other region of the VM"],
         },
         run,
@@ -33,6 +33,8 @@ pub struct CFunc {
     helper: Option<u8>,
     pad: u16,
     frame: u16,
+    /// also perform `callx +0` (the callee is the code that follows the call itself)
+    call_next: bool,
 }
 
 #[derive(Clone, Debug)]
@@ -56,8 +58,9 @@ fn cfunc() -> impl Strategy<Value = CFunc> {
         prop_oneof![3 => Just(None), 1 => (1u8..20).prop_map(Some)],
         prop_oneof![4 => Just(0u16), 1 => 1u16..6],
         prop_oneof![6 => prop::sample::select(vec![0u16, 8, 16, 24, 32, 40, 48, 56, 64]), 1 => prop::sample::select(vec![256u16, 504, 512, 65535, 513, 255]), 1 => any::<u16>(), 2 => (1u16..12).prop_map(|k| k * 8)],
+        prop::bool::weighted(0.12),
     )
-        .prop_map(|(vals, slots, call, second_call, helper, pad, frame)| CFunc { vals, slots, call, second_call, helper, pad, frame })
+        .prop_map(|(vals, slots, call, second_call, helper, pad, frame, call_next)| CFunc { vals, slots, call, second_call, helper, pad, frame, call_next })
 }
 
 pub fn cprog() -> impl Strategy<Value = CProg> {
@@ -97,6 +100,7 @@ pub fn lower(p: &CProg) -> ExecCase {
     let mut out: Vec<Insn> = Vec::new();
     let mut entry = vec![0usize; n];
     let mut fixups: Vec<(usize, usize)> = Vec::new();
+    let mut extra_entries: Vec<(usize, usize)> = Vec::new();
     for (pos, &fi) in order.iter().enumerate() {
         let f = &p.funcs[fi];
         if fi != 0 {
@@ -141,6 +145,24 @@ pub fn lower(p: &CProg) -> ExecCase {
             } else {
                 out.push(Insn::new(stx_opc(8), 10, 6 + (k as u8 % 4), off, 0));
             }
+        }
+        if f.call_next {
+            // if (r1 != 0) { r1 -= 1; r5 = r10; callx +0 }: the rest of this function runs once as
+            // the callee (one level deeper) and, after its exit, once more as the continuation
+            out.push(Insn::new(jmp_opc(true, J_EQ, false), 1, 0, 3, 0));
+            out.push(Insn::new(alu_opc(true, ALU_ADD, false), 1, 0, 0, -1));
+            out.push(Insn::new(alu_opc(true, ALU_MOV, true), 5, 10, 0, 0));
+            out.push(Insn::new(CALL, 0, 1, 0, 0));
+            // The code from here on is both the callee's body and the caller's continuation. Which
+            // function it "belongs to" is not something the property decides, so the calculator
+            // gives this entry the same frame size as the enclosing function: every reading agrees.
+            extra_entries.push((out.len(), fi));
+            // entry of the "function" that starts here: fold its frame relation like any other
+            out.push(Insn::new(alu_opc(true, ALU_MOV, true), 4, 10, 0, 0));
+            out.push(Insn::new(alu_opc(true, ALU_SUB, true), 4, 5, 0, 0));
+            fold(&mut out, 4, 501);
+            out.push(Insn::new(alu_opc(true, ALU_MOV, false), 4, 0, 0, 44));
+            out.push(Insn::new(alu_opc(true, ALU_MOV, true), 5, 10, 0, 0));
         }
         for (ci, call) in [f.call, f.second_call].iter().enumerate() {
             let Some(sel) = call else { continue };
@@ -208,7 +230,9 @@ pub fn lower(p: &CProg) -> ExecCase {
     case.helpers.sort();
     case.helpers.dedup_by_key(|h| h.0);
     if let Some(default) = p.calc {
-        case.calc = Some(((0..n).map(|fi| (entry[fi], p.funcs[fi].frame)).collect(), default));
+        let mut table: Vec<(usize, u16)> = (0..n).map(|fi| (entry[fi], p.funcs[fi].frame)).collect();
+        table.extend(extra_entries.iter().map(|(pc, fi)| (*pc, p.funcs[*fi].frame)));
+        case.calc = Some((table, default));
     }
     case
 }
